@@ -422,6 +422,33 @@ def increment_of(st):
     return None
 
 
+def clone(node):
+    """private copy of a syntax (sub)tree: positions kept, no parent links shared with the module's tree (copy.deepcopy would
+    follow `_parent` into the whole module)"""
+    if isinstance(node, list):
+        return [clone(x) for x in node]
+    import copy as _copy
+    memo = {}
+
+    def strip(n):
+        for x in ast.walk(n):
+            p_ = getattr(x, "_parent", None)
+            if p_ is not None:
+                memo[id(x)] = p_
+                del x._parent
+    strip(node)
+    try:
+        new = _copy.deepcopy(node)
+    finally:
+        for x in ast.walk(node):
+            if id(x) in memo:
+                x._parent = memo[id(x)]
+    for x in ast.walk(new):
+        for ch in ast.iter_child_nodes(x):
+            ch._parent = x
+    return new
+
+
 def assigned_names(fn) -> set:
     out = set()
     for n in ast.walk(fn):
